@@ -272,6 +272,9 @@ def check(F, run, tier):
     run.add(once_each_side(F, S))
     run.add(validation_and_orientation(F, S))
     run.add(header_fields_constrained(F, S))
+    # the bytes written depend on the picture alone: no state carried over from an earlier call
+    from .c18 import static_locals
+    run.add([o for o in static_locals(F)[0] if "Tileset" in o.instance])
     run.add(tileset_constraints(F, S))
     run.add(ic.detectors(F, S))
     pk = F.fn("OP2Utility::Stream::BidirectionalReader::Peek", nparams=2)
